@@ -34,7 +34,7 @@ func All(o Opts, emit Emit) {
 		n++
 		return emit(f, fmt.Sprintf("%s/%d", f, n), x)
 	}
-	fams := []func(Opts, func(string, *ex.E) bool) bool{F1, F2, F3, F4, F5, F6, F7, F8, F9, F10, F11}
+	fams := []func(Opts, func(string, *ex.E) bool) bool{F1, F2, F3, F4, F5, F6, F7, F8, F9, F10, F11, F2s}
 	for _, f := range fams {
 		if !f(o, e) {
 			return
@@ -61,6 +61,30 @@ func F2(o Opts, emit func(string, *ex.E) bool) bool {
 			for _, b := range atoms(o) {
 				if !emit("F2-binary", ex.Bin(op, a, b)) {
 					return false
+				}
+			}
+		}
+	}
+	return true
+}
+
+// F2s: equality of structural values that differ in one nested position.
+func F2s(o Opts, emit func(string, *ex.E) bool) bool {
+	ops := []*ex.E{ex.Num("1"), ex.Str("a"), ex.Var("one"), ex.Var("two"), ex.Var("sa"), ex.Var("s1"), ex.Var("bt"), ex.Var("ln"), ex.Var("o"), ex.Kw("null")}
+	shapes := []func(x *ex.E) *ex.E{
+		func(x *ex.E) *ex.E { return ex.Tuple(x) },
+		func(x *ex.E) *ex.E { return ex.Obj(ex.IdItem("k", x)) },
+		func(x *ex.E) *ex.E { return ex.Tuple(x, ex.Str("k")) },
+		func(x *ex.E) *ex.E { return ex.Obj(ex.IdItem("k", x), ex.IdItem("n", ex.Num("1"))) },
+		func(x *ex.E) *ex.E { return ex.Tuple(ex.Tuple(x)) },
+	}
+	for _, op := range []string{"==", "!="} {
+		for _, sh := range shapes {
+			for _, a := range ops {
+				for _, b := range ops {
+					if !emit("F2-binary", ex.Bin(op, sh(a), sh(b))) {
+						return false
+					}
 				}
 			}
 		}
